@@ -9,6 +9,7 @@ for d in seeded/${1:-}*/; do
   prop=$(python3 -c "import json,sys; print(json.load(open(sys.argv[1]))['breaks_property'])" "$d/meta.json")
   # C02d is reported under C07 (see its meta)
   [ "$id" = "C02d-drain-exits-on-empty-queue" ] && prop=C07
+  [ "$id" = "C02e-serialized-send-drops-admission-early" ] && prop=C07
   out=$(tools/try_seed.sh "$id" "$prop" 2>&1 | grep -E "^== |patch does not apply")
   echo "$id: $out"
   echo "$out" | grep -q "exit=1" || fail=1
